@@ -47,6 +47,8 @@ def build_forms(tier, rng, unary=None, binary=None, ternary=None):
     if tier != "quick":
         rng.shuffle(triples)
         triples = triples[:150000]
+    if tier == "quick":
+        triples += [t for t in itertools.product(G.ROUND, repeat=3) if not all(x in tern for x in t)]
     for (a, b, c) in triples:
         for op in ternary:
             forms.append((op, [a, b, c]))
@@ -90,6 +92,7 @@ def run(rep, tier, rng, forms=None, oracle="arith"):
         index.append((k, op, vals, flat[len(operands) + k]))
     model = C.run_driver(model_cases)
     seen = set()
+    pairs, pair_checked = {}, [0]
     for k, op, vals, got in index:
         rep.count()
         key = (op, tuple(vals))
@@ -103,16 +106,27 @@ def run(rep, tier, rng, forms=None, oracle="arith"):
         if len(rep.cov["samples"]) < 8 and (k * 2654435761) % 4099 == 0:
             rep.sample({"form": form, "operand_values": vals, "implementation": got, "model": m})
         bad = None
+        if oracle == "cmp" and op in G.CMP_OPS and len(vals) == 2:
+            pairs[key] = got
         if oracle == "arith":
             bad = G.check_arith_oracle(op, vals, got)
         elif oracle == "cmp":
             bad = G.check_cmp_oracle(op, vals, got)
+            if not bad and op in G.CMP_OPS and len(vals) == 3:
+                # an n-ary comparison is the conjunction of its adjacent pairs (the implementation's own answers for them)
+                p1, p2 = pairs.get((op, (vals[0], vals[1]))), pairs.get((op, (vals[1], vals[2])))
+                if p1 in ("V #t", "V #f") and p2 in ("V #t", "V #f") and got in ("V #t", "V #f"):
+                    pair_checked[0] += 1
+                    if (got == "V #t") != (p1 == "V #t" and p2 == "V #t"):
+                        bad = "(%s a b c) is %s but (%s a b) is %s and (%s b c) is %s" % (op, got[2:], op, p1[2:], op, p2[2:])
         if bad:
             rep.violation({"what": "implementation breaks the property", "form": form, "operand_values": vals,
                            "implementation": got, "problem": bad, "model": m})
         elif m != g:
             rep.violation({"what": "model and implementation disagree: correspondence RuschmModel/Num.lean <-> src/values.rs broken",
                            "form": form, "operand_values": vals, "implementation": got, "model": m}, no_input=True)
+    if oracle == "cmp":
+        rep.cov["chains_checked_against_their_adjacent_pairs"] = pair_checked[0]
 
 
 def directed_search(rep, tier, rng):
